@@ -86,7 +86,8 @@ def work(item):
             if theorem in ("stokes", "green"):
                 reg = regions(t, u, v)[region]
                 planar = theorem == "green"
-                comps, coeffs = generic_field(C, deg, 2 if planar else 3, planar=planar)
+                # variant "theoremz": a two-component field that also depends on z (evaluated in the plane z = 0 by both routines)
+                comps, coeffs = generic_field(C, deg, 2 if planar else 3, planar=planar and variant != "theoremz")
                 field = VectorField.from_vector(Vector(comps, C))
                 f_curve = AN.circulation_along_curve if theorem == "stokes" else AN.flux_across_curve
                 f_surf = AN.circulation_along_surface_boundary if theorem == "stokes" else AN.flux_across_surface_boundary
@@ -102,7 +103,7 @@ def work(item):
                             traj = [sp.sympify(c).subs(p, lo + hi - p) for c in traj]
                         tot += f_curve(field, traj, (p, lo, hi))
                     return tot
-                if variant == "theorem":
+                if variant in ("theorem", "theoremz"):
                     lhs = curve_value()
                     rhs = f_surf(field, reg["surface"], reg["s1"], reg["s2"])
                     return lhs, rhs, [t, u, v]
@@ -166,7 +167,7 @@ t, u, v = sp.symbols("t u v", real=True)
 random.seed(11)
 sizes = {{sp.Symbol("R", positive=True): 2, sp.Symbol("a", positive=True): 3, sp.Symbol("b", positive=True): sp.Rational(3, 2), sp.Symbol("c", positive=True): 2}}
 planar = theorem == "green"
-comps, coeffs = c13.generic_field(C, deg, 2 if planar else 3, planar=planar)
+comps, coeffs = c13.generic_field(C, deg, 2 if planar else 3, planar=planar and variant != "theoremz")
 vals = {{a: random.randint(-4, 4) for a in coeffs}}
 comps = [sp.sympify(c).subs(vals) for c in comps]
 field = VectorField.from_vector(Vector(comps, C))
@@ -189,7 +190,7 @@ try:
                 if reverse: traj = [c.subs(p, lo + hi - p) for c in traj]
                 tot += fc(field, traj, (p, lo, hi))
             return num(tot)
-        if variant == "theorem":
+        if variant in ("theorem", "theoremz"):
             s1 = tuple(sp.sympify(x).subs(sizes) for x in reg["s1"]); s2 = tuple(sp.sympify(x).subs(sizes) for x in reg["s2"])
             l = curve(); r = num(fs(field, [sp.sympify(c).subs(sizes) for c in reg["surface"]], s1, s2))
         elif variant == "speed": l = curve(); r = curve(scale=sp.Rational(5, 2))
@@ -222,6 +223,8 @@ def run(ctx):
         items.append(("stokes", "disc_xy", deg, "theorem", timeout))
         items.append(("green", "disc_xy", deg, "theorem", timeout))
         items.append(("green", "circle_swapped", deg, "theorem", timeout))
+        items.append(("green", "circle", deg, "theoremz", timeout))
+        items.append(("green", "rectangle", deg, "theoremz", timeout))
         items.append(("green", "rectangle_swapped", deg, "theorem", timeout))
     for theorem in ("stokes", "green"):
         for region in (("circle", "ellipse", "rectangle") if thorough else ("circle", "rectangle")):
